@@ -842,7 +842,7 @@ func c12wfmt(rc *vk.Rec) {
 	}
 	// mutants and slices
 	phase = "wfmt"
-	n := rc.N(12800, 320000)
+	n := rc.N(12800, 2000000)
 	for idx := int64(0); idx < int64(n); idx++ {
 		if rc.SkipCase(phase, idx) {
 			continue
@@ -915,6 +915,18 @@ const c12lexical = c12fStr | c12fEsc | c12fChr | c12fLineCmt | c12fBlk1 | c12fBl
 
 var c12featNames = []string{"str", "esc", "chr", "//", "/**/", "/*", "in*", "*/", "`1`", "`open", "in`", "`close", "#", "\\eol", "after-close",
 	"multi", "brace", "paren", "label", "blank", "str\\nl", "=eol"}
+
+// c12featPrimary names the most specific lexical feature of a line; it keeps
+// violation signatures few and stable.
+func c12featPrimary(f uint32) string {
+	for _, b := range []uint32{c12fAfter, c12fBlkClose, c12fRawClose, c12fBlkOpen, c12fRawOpen, c12fBlkIn, c12fRawIn, c12fStrCont, c12fPP,
+		c12fBlk1, c12fRaw1, c12fLineCmt, c12fEsc, c12fStr, c12fChr, c12fCont, c12fLabel, c12fBlank} {
+		if f&b != 0 {
+			return c12featString(b)
+		}
+	}
+	return "plain"
+}
 
 func c12featString(f uint32) string {
 	if f == 0 {
@@ -1325,7 +1337,8 @@ func c12dumbCheck(rc *vk.Rec, phase string, idx int64, from string, src []byte, 
 	if diff >= 0 {
 		fs := "eof"
 		if diff < len(feats) {
-			fs = c12featString(feats[diff])
+			fs = c12featPrimary(feats[diff])
+			extra["line_features"] = c12featString(feats[diff])
 		}
 		var la, lb string
 		if diff < len(a) {
@@ -1355,7 +1368,8 @@ func c12dumbCheck(rc *vk.Rec, phase string, idx int64, from string, src []byte, 
 		}
 		fs := "eof"
 		if ln < len(feats) {
-			fs = c12featString(feats[ln])
+			fs = c12featPrimary(feats[ln])
+			extra["line_features"] = c12featString(feats[ln])
 		}
 		extra["line"] = ln
 		extra["twice"] = vk.Trunc(out2, 3000)
@@ -1707,7 +1721,7 @@ func c12prepare(rc *vk.Rec, b []byte) (text []byte, feats []uint32, ok bool) {
 func c12dumb(rc *vk.Rec, hangFamily bool) {
 	if hangFamily {
 		phase := "dumbh"
-		n := rc.N(9600, 320000)
+		n := rc.N(9600, 2000000)
 		for idx := int64(0); idx < int64(n); idx++ {
 			if rc.SkipCase(phase, idx) {
 				continue
@@ -1770,7 +1784,7 @@ func c12dumb(rc *vk.Rec, hangFamily bool) {
 		total += len(f.starts)
 	}
 	phase = "dumb-slice"
-	n := rc.N(9600, 400000)
+	n := rc.N(9600, 2000000)
 	for idx := int64(0); idx < int64(n); idx++ {
 		if rc.SkipCase(phase, idx) {
 			continue
@@ -1818,7 +1832,7 @@ func c12dumb(rc *vk.Rec, hangFamily bool) {
 	rc.Finish()
 
 	phase = "dumb-gram"
-	n = rc.N(48000, 2000000)
+	n = rc.N(48000, 12000000)
 	for idx := int64(0); idx < int64(n); idx++ {
 		if rc.SkipCase(phase, idx) {
 			continue
